@@ -98,7 +98,18 @@ impl FilterBodyAction {
                 log::error!("error while filtering: {:?}", err);
                 self.in_error = true;
 
-                data
+                // Give back what the html filters were holding, oldest bytes first, then pass through
+                let mut passthrough = Vec::new();
+
+                for item in self.chain.iter_mut().rev() {
+                    if let FilterBodyActionItem::Html(html_body_filter) = item {
+                        passthrough.extend(html_body_filter.end());
+                    }
+                }
+
+                passthrough.extend(data);
+
+                passthrough
             }
         }
     }
